@@ -43,6 +43,18 @@ pub fn hex_to_bytes(s: &str) -> Vec<u8> {
     }
     (0..s.len() / 2).map(|i| u8::from_str_radix(&s[2 * i..2 * i + 2], 16).unwrap()).collect()
 }
+/// Hex dump of a buffer the library wrote into.  Padding bytes of a `ptr.write` are uninitialised memory for
+/// Miri; reading them (as this dump does) would be reported as undefined behaviour of the *harness*.  Under
+/// VERIF_NO_RAW=1 (the Miri run of the thorough tier) the dump is suppressed.
+pub fn raw_hex(b: &[u8]) -> String {
+    static NO_RAW: std::sync::OnceLock<bool> = std::sync::OnceLock::new();
+    if *NO_RAW.get_or_init(|| std::env::var_os("VERIF_NO_RAW").is_some()) {
+        "-".into()
+    } else {
+        bytes_to_hex(b)
+    }
+}
+
 pub fn bytes_to_hex(b: &[u8]) -> String {
     if b.is_empty() {
         return "-".into();
@@ -852,7 +864,7 @@ pub fn strip_caps(s: &str) -> String {
 fn after_emplace<T: Probe + ?Sized>(arena: &Arena, r: Result<(), Error>) -> String {
     let bytes = arena.slice();
     let mut o = res_s(&r);
-    write!(o, " buf={}", bytes_to_hex(bytes)).unwrap();
+    write!(o, " buf={}", raw_hex(bytes)).unwrap();
     let val = guarded(|| res_s(&T::validate(bytes)));
     write!(o, " val={}", val).unwrap();
     if val == "ok" {
@@ -1130,7 +1142,7 @@ fn hist_obs<T: Probe + ?Sized>(a: &Arena) -> String {
     } else {
         o.push_str("view=- size=- tv=- ab=-");
     }
-    write!(o, " buf={}", bytes_to_hex(bytes)).unwrap();
+    write!(o, " buf={}", raw_hex(bytes)).unwrap();
     if eq_flag {
         o.push_str(" EQ-MISMATCH");
     }
